@@ -6,6 +6,9 @@
  *   fio fault <kind>                      short / long write to /dev/full, read of a missing file, of a directory,
  *                                         write into a missing directory -> "rc=<return value>"
  * The destination string starts with the given capacity (heap), so that growth happens at different points. */
+#ifndef _GNU_SOURCE
+#define _GNU_SOURCE 1
+#endif
 #include <gpc/io.h>
 #include <gpc/string.h>
 #include <gpc/memory.h>
@@ -15,6 +18,26 @@
 
 static char dir[64];
 static char path[128];
+
+/* "size changing between stat and read": the library's stat() of `path` is followed by a truncation to shrink_to bytes */
+#include <dlfcn.h>
+static long shrink_to = -1;
+static void after_stat(const char* p)
+{
+    if (shrink_to >= 0 && !strcmp(p, path)) { if (truncate(path, shrink_to)) {} shrink_to = -1; }
+}
+int stat(const char* p, struct stat* st)
+{
+    static int (*real)(const char*, struct stat*);
+    if (!real) real = (int (*)(const char*, struct stat*))dlsym(RTLD_NEXT, "stat");
+    int r = real(p, st); if (r == 0) after_stat(p); return r;
+}
+int stat64(const char* p, struct stat64* st)
+{
+    static int (*real)(const char*, struct stat64*);
+    if (!real) real = (int (*)(const char*, struct stat64*))dlsym(RTLD_NEXT, "stat64");
+    int r = real(p, st); if (r == 0) after_stat(p); return r;
+}
 
 static void write_file(const uint8_t* b, size_t n)
 {
@@ -73,6 +96,14 @@ int main(void)
                 char p2[160]; snprintf(p2, sizeof p2, "%s/does-not-exist", dir); rc = gp_str_file(&s, p2, "read");
             } else if (!strcmp(t[1], "dir")) {
                 rc = gp_str_file(&s, dir, "read");
+            } else if (!strncmp(t[1], "shrunk-", 7)) {
+                /* shrunk-<from>-<to>: the file holds <from> bytes when its size is sampled and <to> bytes when it is read */
+                long from = 0, to = 0; sscanf(t[1] + 7, "%ld-%ld", &from, &to);
+                uint8_t* b = malloc(from + 1); memset(b, 'y', from); write_file(b, from); free(b);
+                shrink_to = to;
+                rc = gp_str_file(&s, path, "read");
+                if (shrink_to >= 0) { rc = 98; shrink_to = -1; }      /* the size was never sampled through stat */
+                else if (rc == 0) { printf("rc=0 len=%zu\n", gp_str_length(s)); gp_str_delete(s); continue; }
             } else if (!strcmp(t[1], "wdir")) {
                 char p2[160]; snprintf(p2, sizeof p2, "%s/no-such-dir/f", dir); rc = gp_str_file(&s, p2, "write");
             }
